@@ -68,35 +68,8 @@ def place_field(p):
     return None
 
 
-def locals_reading_field(body, field):
-    """locals assigned from a place / reference involving self.<field> (any depth of reborrow)"""
-    out = set()
-    for bl in range(body.n):
-        for s in body.stmts(bl):
-            if s[0] != "a":
-                continue
-            rv = s[2]
-            ps = []
-            if rv[0] in ("ref", "raw", "discr"):
-                ps.append(rv[2] if rv[0] != "discr" else rv[1])
-            else:
-                from .mirlib import rvalue_operands
-                ps += [op[1] for op in rvalue_operands(rv) if op[0] in ("c", "m")]
-            for p in ps:
-                if any(isinstance(e, list) and e[0] == "f" and e[2] == field for e in p[1]):
-                    out.add(s[1][0])
-    return out
-
-
-def switches_depending_on_field(body, field):
-    src = locals_reading_field(body, field)
-    tainted = body.taint(src)
-    out = []
-    for sb in range(body.n):
-        t = body.term(sb)
-        if t["k"] == "switch" and any(l in tainted for l in operand_locals(t["d"])):
-            out.append(sb)
-    return out
+locals_reading_field = flow.locals_reading_field
+switches_depending_on_field = flow.switches_depending_on_field
 
 
 def run(ck, tier):
